@@ -96,6 +96,9 @@ class Automaton(object):
             if raw == UNINIT or (raw[0] == 'cat' and UNINIT in raw[1]) or 'uninit' in short(t):
                 raise Defect('ctor|%s|uninit|%d' % (self.ctor, off), '%s leaves %d byte(s) at offset %d of the automaton it returns uninitialised (a state timeout / table '
                              'field keeps whatever the allocator returned): every later step reads it' % (self.ctor, n, off), function=self.ctor)
+            if 'g:' in short(t):
+                raise Defect('ctor|%s|static|%d' % (self.ctor, off), '%s fills the automaton it returns (offset %d) from mutable static storage (%s): what a new automaton starts with '
+                             'then depends on earlier calls - a cached table, state or time stamp of another automaton' % (self.ctor, off, short(t)), function=self.ctor)
             raise AnalysisBroken('%s: table cell at offset %d is not a constant (%s)' % (self.ctor, off, short(t)))
         return t[1]
 
